@@ -320,6 +320,37 @@ fn main() {
     let ts = token_space(if quick { 4 } else { 5 });
     let s4 = ts.par_iter().map(|s| { let mut st = Stats::default(); judge_semver_fixed_point(&ctx, s, &mut st); st }).reduce(Stats::default, Stats::merge);
 
+    // many identifiers: canonical-shape versions whose build metadata has hundreds to thousands of identifiers (around powers
+    // of two and ten) - the clauses put no bound on their number; also a PEP 440 local segment of that many parts
+    let counts: Vec<usize> = if quick { vec![64, 65, 255, 256, 257, 1000, 1024, 1025, 4097, 10001] } else { vec![64, 65, 127, 128, 129, 255, 256, 257, 511, 512, 513, 999, 1000, 1001, 1023, 1024, 1025, 2047, 2048, 2049, 4095, 4096, 4097, 8191, 8192, 8193, 9999, 10000, 10001, 16383, 16384, 16385, 32767, 32768, 32769, 50000, 65535, 65536, 65537] };
+    let many: Vec<Canon> = counts.iter().flat_map(|&n| {
+        let build: &'static str = Box::leak((0..n).map(|i| format!("b{}", i % 10)).collect::<Vec<_>>().join(".").into_boxed_str());
+        let one = |x: &str| x.to_string();
+        vec![
+            Canon { core: [one("1"), one("2"), one("3")], epoch: None, pre: None, post: None, dev: None, build },
+            Canon { core: [one("1"), one("2"), one("3")], epoch: Some(one("2")), pre: Some(("rc", one("1"))), post: Some(one("4")), dev: Some(one("5")), build },
+        ]
+    }).collect();
+    // (the conversions are quadratic in the number of identifiers: above 2000 identifiers only the three conversions the
+    // statement names are run - to SemVer unchanged, to PEP 440, and back)
+    let s_many = many.par_iter().map(|c| {
+        let mut st = Stats::default(); st.inc("many_identifier_cases");
+        if c.build.len() < 6000 { judge_canon(&ctx, c, &mut st); return st; }
+        let (sv, pp) = (c.semver(), c.pep440());
+        let n = c.build.split('.').count();
+        for (from, to, input, want) in [("semver", "semver", &sv, &sv), ("semver", "pep440", &sv, &pp), ("pep440", "semver", &pp, &sv)] {
+            st.inc("conversions");
+            let key = format!("{from} -> {to} with {n} build identifiers ({}...)", &input[..input.len().min(40)]);
+            match render(input, from, to) {
+                Err(p) => viol(&ctx, &format!("panic@{}", p.file()), &key, json!({"kind":"many","n":n,"from":from,"to":to}), format!("{} at {}", p.message, p.location)),
+                Ok(Res::Ok(o)) if o == *want => {}
+                Ok(other) => viol(&ctx, "many_identifiers_not_converted", &key, json!({"kind":"many","n":n,"from":from,"to":to}), format!("{:?}", match &other { Res::Ok(o) => format!("printed {} characters, expected {}", o.len(), want.len()), x => format!("{x:?}") })),
+            }
+        }
+        st
+    }).reduce(Stats::default, Stats::merge);
+    let s4 = s4.merge(s_many);
+
     // process conformance slice
     let mut s5 = Stats::default();
     let slice: Vec<(String, &str, &str)> = cs.iter().step_by((cs.len() / 40).max(1)).map(|c| (c.semver(), "semver", "pep440"))
